@@ -9,6 +9,8 @@ pub struct Found {
     pub key: String,
     pub what: String,
     pub replay: J,
+    /// Lower ranks are preferred as witnesses (e.g. fewer deviations, shorter schedule).
+    pub rank: u64,
 }
 
 #[derive(Default)]
@@ -50,7 +52,33 @@ impl Stats {
                 key: key.to_string(),
                 what: what(),
                 replay: replay(),
+                rank: u64::MAX,
             });
+        }
+    }
+    /// Like [Self::violation], but keeps the witness with the lowest `rank` per key, so
+    /// the reported counterexample is minimal and independent of exploration order.
+    pub fn violation_ranked(
+        &mut self,
+        key: &str,
+        rank: u64,
+        what: impl FnOnce() -> String,
+        replay: impl FnOnce() -> J,
+    ) {
+        *self.found_counts.entry(key.to_string()).or_insert(0) += 1;
+        match self.found.iter_mut().find(|f| f.key == key) {
+            Some(f) if f.rank <= rank => {},
+            Some(f) => {
+                f.what = what();
+                f.replay = replay();
+                f.rank = rank;
+            },
+            None => self.found.push(Found {
+                key: key.to_string(),
+                what: what(),
+                replay: replay(),
+                rank,
+            }),
         }
     }
     pub fn sample(&mut self, f: impl FnOnce() -> J) {
@@ -66,8 +94,10 @@ impl Stats {
             self.distinct.entry(k).or_default().extend(v);
         }
         for f in other.found {
-            if !self.found.iter().any(|g| g.key == f.key) {
-                self.found.push(f);
+            match self.found.iter_mut().find(|g| g.key == f.key) {
+                Some(g) if g.rank <= f.rank => {},
+                Some(g) => *g = f,
+                None => self.found.push(f),
             }
         }
         for (k, v) in other.found_counts {
